@@ -508,11 +508,42 @@ fn main() {
             let mut s = f.initiate(&z);
             let p = Point2::from([z.xc, z.yc]);
             let mut ps = pf.initiate(&p);
-            for _ in 0..(5 + rng.usize(60)) {
-                s = f.predict(&s);
-                s = f.update(&s, &z);
-                ps = pf.predict(&ps);
-                ps = pf.update(&ps, &p);
+            // every step of the stand-still phase is also a one-step differential (the measurement equals the projected
+            // mean bit for bit after the first update: a zero innovation still has to shrink the covariance)
+            let mut sgood = true;
+            for k in 0..(5 + rng.usize(60)) {
+                if sgood {
+                    let (m0, c0) = s.verif_raw();
+                    let mut one = ref_from(5, &m0, &c0);
+                    let (_, q1, _) = box_stds(wp, wv, m0[4] as f64);
+                    one.predict(&q1);
+                    s = f.predict(&s);
+                    let (m, c) = s.verif_raw();
+                    sgood &= compare_state(&mut rep, &STEP, "box1-standstill", idx, k, "predict(one-step)", &m, &c, &one, Some(&c0), 0.0, &ctx);
+                    let mut one = ref_from(5, &m, &c);
+                    let (_, _, r1) = box_stds(wp, wv, m[4] as f64);
+                    one.update(&zv(&z), &r1);
+                    s = f.update(&s, &z);
+                    let (m2, c2) = s.verif_raw();
+                    sgood &= compare_state(&mut rep, &STEP, "box1-standstill", idx, k, "update(one-step)", &m2, &c2, &one, Some(&c), 0.0, &ctx);
+                    let (m0, c0) = ps.verif_raw();
+                    let mut one = ref_from(2, &m0, &c0);
+                    one.predict(&[wp, wp, wv, wv]);
+                    ps = pf.predict(&ps);
+                    let (m, c) = ps.verif_raw();
+                    sgood &= compare_state(&mut rep, &STEP, "point1-standstill", idx, k, "predict(one-step)", &m, &c, &one, Some(&c0), 0.0, &ctx);
+                    let mut one = ref_from(2, &m, &c);
+                    one.update(&[p.x as f64, p.y as f64], &[wp, wp]);
+                    ps = pf.update(&ps, &p);
+                    let (m2, c2) = ps.verif_raw();
+                    sgood &= compare_state(&mut rep, &STEP, "point1-standstill", idx, k, "update(one-step)", &m2, &c2, &one, Some(&c), 0.0, &ctx);
+                    rep.count("standstill_steps_compared");
+                } else {
+                    s = f.predict(&s);
+                    s = f.update(&s, &z);
+                    ps = pf.predict(&ps);
+                    ps = pf.update(&ps, &p);
+                }
             }
             for _ in 0..3 {
                 s = f.predict(&s);
